@@ -1410,9 +1410,17 @@ func c05Message(w *World, r *Report) {
 			return true
 		}
 		nfmt++
-		if s, ok := ConstStr(p, ce.Args[0]); ok {
+		// the format is the parameter before the variadic operands (Sprintf, Errorf: 0; Fprintf: 1)
+		fi := 0
+		if sig, ok := f.Type().(*types.Signature); ok && sig.Variadic() && sig.Params().Len() >= 2 {
+			fi = sig.Params().Len() - 2
+		}
+		if fi >= len(ce.Args) {
+			return true
+		}
+		if s, ok := ConstStr(p, ce.Args[fi]); ok {
 			nconst++
-			for _, a := range ce.Args[1:] {
+			for _, a := range ce.Args[fi+1:] {
 				if objOfIdent(p, a) == exprObj && strings.Contains(s, "'%s'") {
 					quotes = true
 				}
